@@ -22,6 +22,8 @@ def run(ctx, rep):
     geometry_inputs(prog, rep, "R06.4", only=("rectangle", "circle", "ellipse", "rounded_rectangle"))
     fill_search_fallback(prog, rep)
     fill_search_whole_row(prog, rep)
+    from rules import c01 as _c01
+    _c01.scanline_rect(prog, rep)   # R01.4: every stroke / fill run is one fill_solid of exactly its columns (no culling, no empty run drawn)
     from rules import axis
     axis.run_for(ctx.program("default"), rep, 'R06.5', ['src/primitives/rectangle/styled.rs', 'src/primitives/primitive_style.rs', 'src/primitives/circle', 'src/primitives/ellipse', 'src/primitives/rounded_rectangle', 'src/primitives/common/styled_scanline.rs', 'src/primitives/common/scanline.rs'], 'stroke and fill areas of the closed shapes are computed per axis')
 
